@@ -187,7 +187,8 @@ func runC07(c *core.Ctx) int {
 						case 1:
 							sp = "name(prom)"
 						case 2:
-							if b.variant%3 == 2 {
+							// (the server only has the tag in these variants; see scenarioConfig)
+							if eff := b.variant % 8; eff%3 == 2 || b.twoServers {
 								sp = "name(+tag)"
 							}
 						}
